@@ -654,7 +654,8 @@ class Choice(Spec):
         return st.sampled_from(self.values)
 
     def canon(self, rng, k):
-        return self.values[k % len(self.values)] if k < 2 else rng.choice(self.values)
+        # variants 0 and 1 share every mode switch and differ in their data only; variant 2 takes the next mode
+        return self.values[0] if k < 2 else self.values[1 % len(self.values)] if k == 2 else rng.choice(self.values)
 
 
 class Flag(Choice):
